@@ -397,3 +397,55 @@ where
     }
     true
 }
+
+// --------------------------------------------------------------------------------------------- bespoke schemes
+
+/// raw KZG10, one proof per commitment: e(C - v g - rv gamma_g, h) == e(W, beta h - z h)
+pub fn kzg_ref<E: Pairing>(
+    vk: &kzg10::VerifierKey<E>,
+    comms: &[&LabeledCommitment<kzg10::Commitment<E>>],
+    z: &E::ScalarField,
+    values: &[E::ScalarField],
+    proof: &Vec<kzg10::Proof<E>>,
+) -> bool {
+    if comms.len() != values.len() || comms.len() != proof.len() {
+        return false;
+    }
+    for ((c, v), p) in comms.iter().zip(values.iter()).zip(proof.iter()) {
+        let mut inner = c.commitment().0.into_group() - vk.g.mul(*v);
+        if let Some(rv) = p.random_v {
+            inner -= vk.gamma_g.mul(rv);
+        }
+        if E::pairing(inner, vk.h) != E::pairing(p.w, vk.beta_h.into_group() - vk.h.mul(*z)) {
+            return false;
+        }
+    }
+    true
+}
+
+/// multilinear PST: e(C - v g, h) == sum_i e(g_mask_i - z_i g, pi_i)
+pub fn mlpc_ref<E: Pairing>(
+    vk: &ark_poly_commit::multilinear_pc::data_structures::VerifierKey<E>,
+    comms: &[&LabeledCommitment<crate::adapters::MlComm<E>>],
+    z: &Vec<E::ScalarField>,
+    values: &[E::ScalarField],
+    proof: &Vec<ark_poly_commit::multilinear_pc::data_structures::Proof<E>>,
+) -> bool {
+    if comms.len() != values.len() || comms.len() != proof.len() {
+        return false;
+    }
+    for ((c, v), p) in comms.iter().zip(values.iter()).zip(proof.iter()) {
+        if p.proofs.len() != vk.nv || z.len() != vk.nv || vk.g_mask_random.len() != vk.nv {
+            return false;
+        }
+        let left = E::pairing(c.commitment().0.g_product.into_group() - vk.g.mul(*v), vk.h);
+        let mut right = ark_ec::pairing::PairingOutput::<E>::zero();
+        for i in 0..vk.nv {
+            right += E::pairing(vk.g_mask_random[i].into_group() - vk.g.mul(z[i]), p.proofs[i]);
+        }
+        if left != right {
+            return false;
+        }
+    }
+    true
+}
